@@ -83,7 +83,8 @@ class Check:
     def violation(self, clause, what, replay, signature=None):
         sig = signature or clause
         for k in self._known:
-            if k.get("signature") == sig or (k.get("signature_prefix") and sig.startswith(k["signature_prefix"])):
+            if k.get("signature") == sig or (k.get("signature_prefix") and sig.startswith(k["signature_prefix"])) \
+                    or (k.get("signature_contains") and k["signature_contains"] in sig):
                 self.known_hits[k["id"]] = self.known_hits.get(k["id"], 0) + 1
                 return False
         self.violations.append(Violation(self.prop, clause, what, replay, sig))
